@@ -6,6 +6,7 @@ import (
 	"fmt"
 	"os"
 	"runtime"
+	"sort"
 	"strings"
 	"sync"
 	"sync/atomic"
@@ -147,9 +148,53 @@ func (l *liveRun) awaitStop(t *rapid.T, what string) {
 				what, ws, hs, strings.Join(l.log, "; "), l.w.journalTail(12), wantedStacks(hp))
 		}
 		if time.Now().After(deadline) {
+			// not one of the known hand-shake deadlocks. Still working, or parked for good somewhere else
+			// (a mutex, a wait group, a channel nobody serves)? Three samples over six seconds: if every
+			// wallet goroutine that is left (worker, follower, the Stop call) sits in a blocking primitive
+			// with an unchanged stack, nothing will ever complete the stop.
+			if parkedForGood(hp) {
+				t.Fatalf("%s: WalletManager.Stop() does not return: after 40 s every remaining wallet goroutine is parked in a blocking primitive and none has moved for six seconds (worker %s, follower %s)\n  burst: %s\n  history:\n  %s\n%s",
+					what, ws, hs, strings.Join(l.log, "; "), l.w.journalTail(12), wantedStacks(hp))
+			}
 			t.Fatalf("HARNESS-ERROR: %s: Stop did not return within 40 s but the goroutine dump shows no structural deadlock (worker %s, follower %s)\n%s", what, ws, hs, wantedStacks(hp))
 		}
 	}
+}
+
+// parkedForGood samples the wallet goroutines of one handler (worker, follower, a Stop call) three
+// times over six seconds and reports whether each of them is in a blocking primitive with an unchanged
+// stack every time.
+func parkedForGood(hp uintptr) bool {
+	sample := func() (string, bool) {
+		tag := fmt.Sprintf("(0x%x", hp)
+		var stacks []string
+		all := true
+		for _, g := range guard.Parse(guard.AllStacks()) {
+			if !strings.Contains(g.Raw, tag) || !(g.Has("masswallet.worker") || g.Has("masswallet.handle") || g.Has("NtfnsHandler).Stop")) {
+				continue
+			}
+			blocking := false
+			for _, b := range []string{"sync.Mutex.Lock", "sync.RWMutex", "semacquire", "chan send", "chan receive", "select", "sync.Cond.Wait", "sync.WaitGroup.Wait"} {
+				blocking = blocking || strings.HasPrefix(g.State, b)
+			}
+			all = all && blocking
+			raw := g.Raw
+			if k := strings.Index(raw, "\n"); k >= 0 {
+				raw = raw[k+1:] // the header may gain a wait time between samples
+			}
+			stacks = append(stacks, raw)
+		}
+		sort.Strings(stacks)
+		return strings.Join(stacks, "\n\n"), all && len(stacks) > 0
+	}
+	first, ok := sample()
+	for k := 0; k < 2 && ok; k++ {
+		time.Sleep(3 * time.Second)
+		var again string
+		again, ok = sample()
+		ok = ok && again == first
+	}
+	return ok
 }
 
 func (l *liveRun) resetStop() {
